@@ -137,7 +137,7 @@ CHECKS = {
              'returned tree instantiates, in order, one of the token sets of its class (derivation_sound: a supported function is never accepted with an argument list the '
              'grammar does not define); the parser looks at token CLASSES only - relabelling the texts of the tokens relabels the tree and changes neither acceptance nor shape '
              '(kinds_only), so ";" and "," are interchangeable as separators for every formula and grammar (separator_blind); the lexer model drops nothing but whitespace: the token texts in '
-             'order, with whitespace only around them, are the whole text (lexer_drops_nothing, for any lexer table), and its regex sources are the ones of this run (pinned_sources, '
+             'order, with whitespace only around them, are the whole text (lexer_drops_nothing, for any lexer table), whitespace around the formula and in front of any token is skipped (whitespace_around_formula, whitespace_before_token), and its regex sources are the ones of this run (pinned_sources, '
              'lexer_table_modelled, separators_one_class). On the table regenerated from the source (Tie A): keywords_longest_first, generated_symbols_defined (decide). '
              'Tie B: random derivations of the repository\'s own grammar (all functions, all argument shapes) and mutants, real Lexer + AstBuilder vs the Lean interpreter on the '
              'regenerated table (tree shape / reject), leaves-vs-tokens on the real tree, whitespace and ,/; laws through evaluation.',
